@@ -4,7 +4,8 @@
   by renaming (tools: see DESIGN 0.1); the theorems below prove that the streaming parsers compute exactly these functions
   of `readTagValue r t`, so the text of this file is checked, not trusted.
 -/
-import Imeta.Lemmas.ExifNested
+import Imeta.Lemmas.ExifOne
+import Imeta.Lemmas.ExifWalk
 namespace Imeta.Exif
 open Imeta
 
